@@ -106,8 +106,10 @@ pub struct ElemInfo {
     pub unwrap: bool,
     pub open: (usize, usize),
     pub close: (usize, usize),
-    /// 0-based line indices
+    /// 0-based line indices; `open_line` is the LAST line of the opening tag (the line whose successor is the opening
+    /// wrapper line), `open_first_line` the line the tag begins on (they differ for tags that span several lines)
     pub open_line: usize,
+    pub open_first_line: usize,
     pub close_line: usize,
     /// index (into Rendered::elems) of the enclosing element
     pub parent: Option<usize>,
@@ -166,12 +168,21 @@ pub fn open_tag(e: &Elem, sp: &Spell) -> String {
     attrs.rotate_left(rot);
     let pad = if (e.style >> 4) & 3 == 3 { " " } else { "" };
     let sep = if (e.style >> 6) & 7 == 7 { "  " } else { " " };
+    // bit 13: the tag spans several lines (the README's layout): every attribute on a continuation line of its own,
+    // indented by 0 / 2 / 5 / 9 blanks (bits 14-15)
+    let ml = (e.style >> 13) & 1 == 1;
+    let cont = ["", "  ", "     ", "         "][(e.style >> 14) & 3];
     let mut s = String::new();
     s.push_str(&sp.ds);
     s.push_str(pad);
     s.push_str(name);
     for a in attrs {
-        s.push_str(sep);
+        if ml {
+            s.push('\n');
+            s.push_str(cont);
+        } else {
+            s.push_str(sep);
+        }
         s.push_str(&a);
     }
     s.push_str(pad);
@@ -241,7 +252,7 @@ pub fn render(doc: &Doc, sp: &Spell) -> Rendered {
                         self.src.push_str(post);
                         let line = self.lines.len();
                         self.end_line(s);
-                        self.elems.push(ElemInfo { id: elem.id, cond: elem.cond.clone(), skip: elem.skip, unwrap: elem.unwrap, open: (o0, o1), close: (c0, c1), open_line: line, close_line: line, parent, tags_alone: false, inline: true });
+                        self.elems.push(ElemInfo { id: elem.id, cond: elem.cond.clone(), skip: elem.skip, unwrap: elem.unwrap, open: (o0, o1), close: (c0, c1), open_line: line, open_first_line: line, close_line: line, parent, tags_alone: false, inline: true });
                     }
                     Node::Row { pre, cells } => {
                         let s = self.begin_line();
@@ -256,7 +267,7 @@ pub fn render(doc: &Doc, sp: &Spell) -> Rendered {
                             self.src.push_str(&close_tag(elem, self.sp));
                             let c1 = self.src.len();
                             self.src.push_str(after);
-                            self.elems.push(ElemInfo { id: elem.id, cond: elem.cond.clone(), skip: elem.skip, unwrap: elem.unwrap, open: (o0, o1), close: (c0, c1), open_line: line, close_line: line, parent, tags_alone: false, inline: true });
+                            self.elems.push(ElemInfo { id: elem.id, cond: elem.cond.clone(), skip: elem.skip, unwrap: elem.unwrap, open: (o0, o1), close: (c0, c1), open_line: line, open_first_line: line, close_line: line, parent, tags_alone: false, inline: true });
                         }
                         self.end_line(s);
                     }
@@ -281,22 +292,31 @@ pub fn render(doc: &Doc, sp: &Spell) -> Rendered {
                         let c1 = self.src.len();
                         self.src.push_str(post);
                         let oi = self.elems.len();
-                        self.elems.push(ElemInfo { id: outer.id, cond: outer.cond.clone(), skip: outer.skip, unwrap: outer.unwrap, open: (o0, o1), close: (c0, c1), open_line: line, close_line: line, parent, tags_alone: false, inline: true });
-                        self.elems.push(ElemInfo { id: inner.id, cond: inner.cond.clone(), skip: inner.skip, unwrap: inner.unwrap, open: (i0, i1), close: (j0, j1), open_line: line, close_line: line, parent: Some(oi), tags_alone: false, inline: true });
+                        self.elems.push(ElemInfo { id: outer.id, cond: outer.cond.clone(), skip: outer.skip, unwrap: outer.unwrap, open: (o0, o1), close: (c0, c1), open_line: line, open_first_line: line, close_line: line, parent, tags_alone: false, inline: true });
+                        self.elems.push(ElemInfo { id: inner.id, cond: inner.cond.clone(), skip: inner.skip, unwrap: inner.unwrap, open: (i0, i1), close: (j0, j1), open_line: line, open_first_line: line, close_line: line, parent: Some(oi), tags_alone: false, inline: true });
                         self.end_line(s);
                     }
                     Node::Block { indent, open_lead, elem, open_trail, kids, close_indent, close_lead, close_trail } => {
-                        let s = self.begin_line();
+                        let mut s = self.begin_line();
                         self.src.push_str(indent);
                         self.src.push_str(open_lead);
                         let o0 = self.src.len();
-                        self.src.push_str(&open_tag(elem, self.sp));
+                        let open_first_line = self.lines.len();
+                        // a tag that spans several lines is several physical lines
+                        let tag = open_tag(elem, self.sp);
+                        let mut pieces = tag.split('\n');
+                        self.src.push_str(pieces.next().unwrap_or(""));
+                        for piece in pieces {
+                            self.end_line(s);
+                            s = self.begin_line();
+                            self.src.push_str(piece);
+                        }
                         let o1 = self.src.len();
                         self.src.push_str(open_trail);
                         let open_line = self.lines.len();
                         self.end_line(s);
                         let idx = self.elems.len();
-                        self.elems.push(ElemInfo { id: elem.id, cond: elem.cond.clone(), skip: elem.skip, unwrap: elem.unwrap, open: (o0, o1), close: (0, 0), open_line, close_line: 0, parent, tags_alone: false, inline: false });
+                        self.elems.push(ElemInfo { id: elem.id, cond: elem.cond.clone(), skip: elem.skip, unwrap: elem.unwrap, open: (o0, o1), close: (0, 0), open_line, open_first_line, close_line: 0, parent, tags_alone: false, inline: false });
                         self.nodes(kids, Some(idx));
                         let s = self.begin_line();
                         self.src.push_str(close_indent);
@@ -323,7 +343,8 @@ pub fn render(doc: &Doc, sp: &Spell) -> Rendered {
     }
     // joined lines: "alone on its line" has to be read off the rendered lines
     for e in r.elems.iter_mut().filter(|e| !e.inline) {
-        let (os, oe) = r.lines[e.open_line];
+        let os = r.lines[e.open_first_line].0;
+        let oe = r.lines[e.open_line].1;
         let (cs, ce) = r.lines[e.close_line];
         e.tags_alone = e.open_line != e.close_line && is_blank(&r.src[os..e.open.0]) && is_blank(&r.src[e.open.1..oe]) && is_blank(&r.src[cs..e.close.0]) && is_blank(&r.src[e.close.1..ce]);
     }
@@ -480,6 +501,8 @@ pub struct Opts {
     /// probability (percent) that a block element gets a neighbour / child whose tag stands on the block's own tag line
     /// (`<outer> <inner>` … , … `</inner> </outer>`), rendered with Join nodes
     pub join_pct: usize,
+    /// probability (percent) that the opening tag of a block element spans several lines (one attribute per line)
+    pub multiline_tag_pct: usize,
 }
 
 impl Opts {
@@ -501,6 +524,7 @@ impl Opts {
             units: vec!["  ", "    ", "\t"],
             first_line_empty_pct: 5,
             join_pct: 0,
+            multiline_tag_pct: 0,
             odd_conditions: true,
             unique_lines: true,
             tag_styles: true,
@@ -709,7 +733,10 @@ impl<'a, 't> Gen<'a, 't> {
     }
 
     fn block(&mut self, level: usize, depth_left: usize, unwrap_ok: bool, in_unwrap_body: bool) -> Node {
-        let elem = self.elem(unwrap_ok);
+        let mut elem = self.elem(unwrap_ok);
+        if self.o.multiline_tag_pct > 0 && self.t.chance(self.o.multiline_tag_pct) {
+            elem.style |= (1 << 13) | (self.t.below(4) << 14);
+        }
         let mut tl = level as isize;
         if self.o.max_tag_indent_jitter && self.o.ragged && self.t.chance(20) {
             tl += self.t.below(3) as isize - 1;
@@ -1060,7 +1087,7 @@ pub fn in_domain(r: &Rendered, d: &Domain) -> Result<(), &'static str> {
         let between = e.close_line - e.open_line - 1;
         if between >= 2 {
             for w in [e.open_line + 1, e.close_line - 1] {
-                if !d.tags_on_wrappers && r.elems.iter().enumerate().any(|(k, o)| k != i && (o.open_line == w || o.close_line == w)) {
+                if !d.tags_on_wrappers && r.elems.iter().enumerate().any(|(k, o)| k != i && ((o.open_first_line..=o.open_line).contains(&w) || o.close_line == w)) {
                     return Err("domain:tag-on-wrapper-line");
                 }
                 if !d.blank_wrappers && line_text(w).chars().all(|c| c == ' ' || c == '\t') {
@@ -1069,7 +1096,7 @@ pub fn in_domain(r: &Rendered, d: &Domain) -> Result<(), &'static str> {
             }
         } else if !d.tags_on_wrappers && between == 1 {
             let w = e.open_line + 1;
-            if r.elems.iter().enumerate().any(|(k, o)| k != i && (o.open_line == w || o.close_line == w)) {
+            if r.elems.iter().enumerate().any(|(k, o)| k != i && ((o.open_first_line..=o.open_line).contains(&w) || o.close_line == w)) {
                 return Err("domain:tag-on-wrapper-line");
             }
         }
